@@ -406,6 +406,49 @@ def extreme_pair_cases():
             out.append(case("cmp", "canonical", enc(I(a)), enc(I(b)), fam="extreme-pair:cmp"))
     return out
 
+
+# ================================================================= text content sweep (shared)
+TRICKY_TEXTS = ["\u00e9:", "\u00e9:x", ":\u00e9", "a:\u00e9", "\u00e9/\u00e9", "\u00e9/b", "a/\u00e9", " \u00e9", "\u00e9 ", "\u00a0a/b", "a/b\u00a0", "\U0001d11e:", "\u4e2d:\u6587", ":", "::", "a:", ":a", "a:b:c",
+                "%", "\u00e9;x=1", "a/b;\u00e9=1", "\u2028", "\ufeff", "\ufeffa/b", "\x00:", "\x00", "\u00e9" * 8, "\U0001f600:", "\U0001f600/\U0001f600", "a/\U0001f600", "\u0301a/b", "a\u0301:b",
+                "coap://h", "\u00e9cole:salle-3", "urn:x", "1:", "+:", "a+b:c", "A:", "\u00c9:", "\u0131:", "\u212a/k", "a/b/c", "/", "a/", "/b", "a b/c", "a/b c", "\ta/b", "a/b\n"]
+def text_sweep_cases(which):
+    """every TEXT-typed position (string claims, text content type, text algorithm / key type / key operation / critical
+    label, text labels and claim names) x strings mixing multi-byte characters (2, 3 and 4 bytes, combining marks, BOM,
+    separators) with the ASCII characters a validator might look for (: / ; = + % space), first / middle / last"""
+    out = []
+    for t in TRICKY_TEXTS:
+        v = enc(T(t))
+        if "ClaimsSet" in which:
+            for lab in (1, 2, 3):
+                out.append(case("dec", "ClaimsSet", enc(M((I(lab), T(t)))), fam="text-sweep:claim-%d" % lab)); out.append(case("rt", "ClaimsSet", enc(M((I(lab), T(t)))), fam="text-sweep-rt:claim-%d" % lab))
+            out.append(case("dec", "ClaimsSet", enc(M((T(t), I(1)))), fam="text-sweep:claim-name")); out.append(case("dec", "ClaimsSet", enc(M((I(8), T(t)))), fam="text-sweep:claim-extra"))
+        if "Header" in which:
+            for fam, b in (("ctype", M((I(3), T(t)))), ("alg", M((I(1), T(t)))), ("crit", M((I(2), A(T(t))), (T(t), I(0)))), ("label", M((T(t), I(1)))), ("extra", M((I(99), T(t))))):
+                out.append(case("dec", "Header", enc(b), fam="text-sweep:header-" + fam)); out.append(case("rt", "Header", enc(b), fam="text-sweep-rt:header-" + fam))
+            out.append(case("dec", "CoseSign1", enc(A(B(enc(M((I(3), T(t))))), M(), NULL, B(b""))), fam="text-sweep:protected-ctype"))
+        if "CoseKey" in which:
+            for fam, b in (("kty", M((I(1), T(t)))), ("alg", M((I(1), I(4)), (I(3), T(t)))), ("op", M((I(1), I(4)), (I(4), A(T(t))))), ("label", M((I(1), I(4)), (T(t), I(1))))):
+                out.append(case("dec", "CoseKey", enc(b), fam="text-sweep:key-" + fam)); out.append(case("rt", "CoseKey", enc(b), fam="text-sweep-rt:key-" + fam))
+        if "CoseKdfContext" in which:
+            out.append(case("dec", "CoseKdfContext", b"\x84" + v + b"\x83\xf6\xf6\xf6\x83\xf6\xf6\xf6\x82\x00\x40", fam="text-sweep:kdf-alg"))
+    return out
+
+def cross_bucket_cases(rng):
+    """every ordered pair of typed header fields with one in the protected and one in the unprotected bucket of every
+    carrier (the same field in both included; IV here and Partial IV there included): each map is judged on its own"""
+    out = []
+    fv = [(1, I(-7)), (2, A(I(4))), (3, I(60)), (4, B(b"k")), (5, B(b"iv")), (6, B(b"piv")), (7, A(B(b""), M(), B(b"s")))]
+    for pl, pv in fv:
+        for ul, uv in fv:
+            p = B(enc(M((I(pl), pv)))); u = M((I(ul), uv))
+            sig = A(p, u, B(b"s")); rec = A(p, u, NULL)
+            for ty, v in (("CoseSign1", A(p, u, NULL, B(b"s"))), ("CoseMac0", A(p, u, NULL, B(b"t"))), ("CoseEncrypt0", A(p, u, NULL)), ("CoseEncrypt0", A(p, u, B(b"ct"))),
+                          ("CoseSign", A(p, u, NULL, A())), ("CoseMac", A(p, u, NULL, B(b"t"), A())), ("CoseEncrypt", A(p, u, NULL, A())), ("CoseSignature", sig), ("CoseRecipient", rec),
+                          ("CoseSign", A(B(b""), M(), NULL, A(sig))), ("CoseEncrypt", A(B(b""), M(), NULL, A(rec))), ("CoseMac", A(B(b""), M(), NULL, B(b""), A(A(B(b""), M(), NULL, A(rec))))),
+                          ("Header", M((I(7), sig)))):
+                out.append(case("dec", ty, enc(v), fam="cross-bucket:" + ty, expect_re=r"ok .*"))
+    return out
+
 # ================================================================= C16
 def label_palette():
     ints = sorted(set(x for x in LATTICE if -2**63 <= x < 2**63) | {2, 10, 22, 25, 100, 1000, -2, -10, -23, -26, -100, -1000,
@@ -1501,6 +1544,7 @@ def cases_C07(rng, tier):
     out += [c for c in value_kind_cases(("Header", "CoseKey", "ClaimsSet")) if c["line"].startswith("rt ")]
     out += [c for c in depth_sweep_cases(("Header", "CoseKey", "CoseKeySet", "ClaimsSet", "CoseSign1", "CoseEncrypt0", "CoseMac", "CoseSign")) if not c["line"].startswith("dec ")]
     out += protected_nesting_cases(ops=("rt",))
+    out += [c for c in text_sweep_cases(("ClaimsSet", "Header", "CoseKey")) if c["line"].startswith("rt ")]
     return out
 
 def post_C07(cases, impl):
@@ -1570,6 +1614,8 @@ def cases_C08(rng, tier):
     out += depth_sweep_cases(("Header", "CoseSign1", "CoseEncrypt0", "CoseMac", "CoseSign"))
     out += protected_nesting_cases()
     out += typed_field_kind_cases(("Header",))
+    out += text_sweep_cases(("Header",))
+    out += cross_bucket_cases(rng)
     return out
 
 def post_groups(cases, impl):
@@ -1673,6 +1719,7 @@ def cases_C09(rng, tier):
                     if ty == "CoseSign":
                         out.append(case("dec", ty, enc(A(B(b""), M(), NULL, A(A(G(t, B(b"")), M(), B(b"s"))))), fam="tagged-bstr-in-nested-slot", expect_re=r"err:\w+"))
                         out.append(case("dec", ty, enc(A(B(b""), M(), NULL, A(A(B(b""), M(), G(t, B(b"s")))))), fam="tagged-bstr-in-nested-slot", expect_re=r"err:\w+"))
+    out += [c for c in cross_bucket_cases(rng) if c["line"].split()[1] in MSG_TYPES]
     return out
 
 # ================================================================= C10
@@ -1701,6 +1748,7 @@ def cases_C10(rng, tier):
     out += [c for c in wrapped_body_cases(rng) if c["line"].split()[1] in ("CoseKey", "CoseKeySet")]
     out += depth_sweep_cases(("CoseKey", "CoseKeySet"))
     out += typed_field_kind_cases(("CoseKey",))
+    out += text_sweep_cases(("CoseKey",))
     return out
 
 # ================================================================= C18
@@ -1746,6 +1794,7 @@ def cases_C18(rng, tier):
     out += depth_sweep_cases(("ClaimsSet",))
     out += typed_field_kind_cases(("ClaimsSet", "CoseKdfContext"))
     out += [c for c in extreme_pair_cases() if " ClaimsSet " in c["line"]]
+    out += text_sweep_cases(("ClaimsSet", "CoseKdfContext"))
     return out
 
 # ================================================================= C11
@@ -1844,6 +1893,11 @@ def cases_C11(rng, tier):
     # extras of every value kind are emitted as given
     for c in value_kind_cases(("Header", "CoseKey", "ClaimsSet")):
         if c["line"].startswith("rt "): out.append(c)
+    import tables as _tb
+    for v in sorted(_tb.REG["Algorithm"]):
+        for ty, tail in (("CoseRecipient", [NULL, ('a', [])]), ("CoseSignature", [B(b"s")]), ("CoseEncrypt0", [NULL])):
+            d = ('a', [d_protected(None, d_header(kid=b"pk")), d_header(alg=d_reg(1, v))] + tail)
+            out.append(case("enc", ty, enc(d), fam="alg-sweep:" + ty, expect="ok " + enc(pyspec.wire_value(ty, d)).hex()))
     return out
 
 # ================================================================= C12
@@ -2063,6 +2117,14 @@ def cases_C20(rng, tier):
         d = gen_desc_key(rng, extra_labels=labels)
         for order in ("Lexicographic", "LengthFirstLexicographic"):
             out.append(case("canon", order, enc(d), fam="canon-length-classes", check=chk_sorted(order), key=enc(d), order=order))
+    # MANY parameters (sorting routines switch algorithm with the slice length): 20..300 labels over all length classes
+    bigpool = [I(x) for x in list(range(6, 60)) + list(range(-60, 0)) + list(range(250, 300)) + list(range(-300, -250)) + [65535, 65536, -65536, -65537, 2**32, -2**32 - 1, 2**63 - 1, -2**63]] \
+        + [T(t) for t in ["", "a", "b", "c", "aa", "ab", "ba", "zz", "aaa", "k" * 23, "k" * 24, "j" * 24, "m" * 255, "m" * 256] + ["t%d" % i for i in range(40)]]
+    for n in (20, 21, 32, 33, 34, 40, 64, 65, 100, 128, 129, 200):
+        for _ in range(Q(tier, 2, 6)):
+            d = gen_desc_key(rng, extra_labels=rng.sample(bigpool, min(n, len(bigpool))))
+            for order in ("Lexicographic", "LengthFirstLexicographic"):
+                out.append(case("canon", order, enc(d), fam="canon-many-params", check=chk_sorted(order), key=enc(d), order=order))
     # all permutations of a small label set
     base = [I(-1), I(24), T("a"), I(-257), I(7)]
     for perm in itertools.permutations(base, Q(tier, 4, 5)):
@@ -2368,6 +2430,33 @@ def cases_C06(rng, tier):
                             args = (bytes([w]), pl, aad) if detached else (bytes([w]), aad)
                             out.append(case("buildrt", "CoseSign", enc(('a', ops)), "01" if tagged else "-", *args, fam="alike-signers" + ("-detached" if detached else ""),
                                             check=(lambda cc, o, wt=want_tbs, kk=sps[w][1]: None if o.endswith(" %s %s" % ((kk + wt).hex(), wt.hex())) else "verifier did not receive (signature, to-be-signed bytes given to that signer)")))
+    # every registered algorithm (plus private-use and text ones) named in the protected bucket, the unprotected bucket
+    # or both, with a non-empty protected header: what the creator was given is what decrypt / verify hands over
+    import tables as _tb
+    aad, pl = b"external aad", b"the payload"
+    algs = [d_reg(1, v) for v in sorted(_tb.REG["Algorithm"])] + [d_reg(0, -65537), d_reg(2, "custom")]
+    for ai, a in enumerate(algs):
+        for where in ("unprotected", "protected", "both"):
+            ph = d_header(alg=a if where != "unprotected" else None, kid=b"pk"); uh = d_header(alg=a) if where != "protected" else D_EMPTY_HEADER
+            pb = enc(pyspec.header_map(ph)); k = b"kk"
+            ctx = ("EncRecipient", "MacRecipient", "RecRecipient")[ai % 3]
+            want = pyspec.enc_structure(ctx, pb, aad); ct = k + bytes([len(pl) % 256]) + pl + want
+            ops = [A(T("protected"), ph), A(T("unprotected"), uh), A(T("create_ciphertext"), T(ctx), B(pl), B(aad), A(I(0), B(k)))]
+            out.append(case("buildrt", "CoseRecipient", enc(('a', ops)), "-", tstr(ctx), aad, fam="alg-sweep:CoseRecipient",
+                            check=(lambda cc, o, w=want, ctt=ct: None if o.endswith(" %s %s" % (ctt.hex(), w.hex())) else "decrypt did not receive (ciphertext, additional data given at creation)")))
+            if where == "unprotected" or ai % 4 == 0:
+                want = pyspec.enc_structure("CoseEncrypt0", pb, aad); ct = k + bytes([len(pl) % 256]) + pl + want
+                ops = [A(T("protected"), ph), A(T("unprotected"), uh), A(T("create_ciphertext"), B(pl), B(aad), A(I(0), B(k)))]
+                out.append(case("buildrt", "CoseEncrypt0", enc(('a', ops)), "-", aad, fam="alg-sweep:CoseEncrypt0",
+                                check=(lambda cc, o, w=want, ctt=ct: None if o.endswith(" %s %s" % (ctt.hex(), w.hex())) else "decrypt did not receive (ciphertext, additional data given at creation)")))
+                want = pyspec.mac_structure("CoseMac0", pb, aad, pl)
+                ops = [A(T("protected"), ph), A(T("unprotected"), uh), A(T("payload"), B(pl)), A(T("create_tag"), B(aad), A(I(0), B(k)))]
+                out.append(case("buildrt", "CoseMac0", enc(('a', ops)), "-", aad, fam="alg-sweep:CoseMac0",
+                                check=(lambda cc, o, w=want, kk=k: None if o.endswith(" %s %s" % ((kk + w).hex(), w.hex())) else "verify did not receive (tag, to-be-MACed bytes given at creation)")))
+                want = pyspec.sig_structure("CoseSign1", pb, None, aad, pl)
+                ops = [A(T("protected"), ph), A(T("unprotected"), uh), A(T("payload"), B(pl)), A(T("create_signature"), B(aad), A(I(0), B(k)))]
+                out.append(case("buildrt", "CoseSign1", enc(('a', ops)), "-", aad, fam="alg-sweep:CoseSign1",
+                                check=(lambda cc, o, w=want, kk=k: None if o.endswith(" %s %s" % ((kk + w).hex(), w.hex())) else "verifier did not receive (signature, to-be-signed bytes given to the signer)")))
     return out
 
 # ================================================================= C02
@@ -2697,6 +2786,7 @@ def cases_C01(rng, tier):
             if n <= 3000:
                 out.append(case("dec", "CoseKeySet", b"\x81" + w, fam="wrapped-toplevel", expect_re=r"err:\w+"))
     out += extreme_pair_cases()
+    out += text_sweep_cases(("ClaimsSet", "Header", "CoseKey", "CoseKdfContext"))
     return out
 # ================================================================= registry
 PROPS = {}
